@@ -84,8 +84,6 @@ def detect_cfg():
     from pyiron_workflow import topology
     from pyiron_workflow.io import HasIO
     from pyiron_workflow.nodes.composite import Composite
-    from pyiron_workflow.workflow import Workflow
-
     def src(f):
         try:
             return inspect.getsource(f)
@@ -100,7 +98,6 @@ def detect_cfg():
         "_ensure_valid_value_links" in rc,
         "_seat_replacement" in rc,
         "saved_connections" in src(topology._set_new_run_connections_with_fallback_recovery),
-        "_ensure_io_survives_replacement" in src(Workflow.replace_child) + rc,
     ]
 
 
